@@ -848,6 +848,7 @@ type history struct {
 		Audit  bool   `json:"audit"`
 		Bal    string `json:"bal"`
 		Proof  string `json:"proof"` // "" / "serial" / "parallel": proof verification grouping
+		Ledger string `json:"ledger"` // "" / "simple" / "complex": state ledger type
 	} `json:"cfg"`
 	Steps   []step `json:"steps"`
 	Timeout int    `json:"timeout_ms"`
@@ -863,7 +864,7 @@ func runOne(_ []string) error {
 	if err := json.Unmarshal(data, &h); err != nil {
 		return err
 	}
-	c, err := hx.NewChain(hx.ChainOpts{NumAdmins: h.Cfg.Admins, GasPrice: h.Cfg.Gas, EnableAudit: h.Cfg.Audit, Balance: h.Cfg.Bal, Quiet: true, ProofType: h.Cfg.Proof})
+	c, err := hx.NewChain(hx.ChainOpts{NumAdmins: h.Cfg.Admins, GasPrice: h.Cfg.Gas, EnableAudit: h.Cfg.Audit, Balance: h.Cfg.Bal, Quiet: true, ProofType: h.Cfg.Proof, LedgerType: h.Cfg.Ledger})
 	if err != nil {
 		return err
 	}
